@@ -598,9 +598,11 @@ static int other_fault(long idx, const char *call, int fd, const char *path) {
     struct entry *en = lookup(idx);
     if (en) {
         if (en->kind == K_CRASH) crash_now(idx, call, fd, path, 0);
-        if (en->kind == K_ERR || en->kind == K_EINTR) {
-            int e = en->kind == K_EINTR ? EINTR : (int)en->arg;
-            trace(idx, call, fd, path, 0, -1, e, en->kind == K_EINTR ? "eintr" : "err");
+        /* EINTR is not among the errors of rename/unlink/ftruncate, and Linux does not return it from fsync: a plan
+         * entry that was meant for another call and lands here is not delivered */
+        if (en->kind == K_ERR) {
+            int e = (int)en->arg;
+            trace(idx, call, fd, path, 0, -1, e, "err");
             errno = e;
             return 1;
         }
